@@ -51,6 +51,9 @@ var _ internal.TypedValue = (*Set)(nil)
 // with the same members (snapshots, AOF preamble).
 func (s *Set) ValueTypeName() string { return "set" }
 
+// CopyValue returns a set with the same members that shares nothing with s.
+func (s *Set) CopyValue() interface{} { return NewSet(s.GetAll()) }
+
 func (s *Set) MarshalJSON() ([]byte, error) {
 	members := s.GetAll()
 	slices.Sort(members)
